@@ -11,7 +11,7 @@ _m(
     "__getitem__ (ints incl. negative, slices with positive and negative steps, one list, Ellipsis, short tuples, bare or tuple form; at "
     "least one axis and one element survive); every mutating operation is drawn in-place or copying AND executed in the other variant on a "
     "copy.  Arguments are drawn from the current state.  (2) Bounded-exhaustive: every sequence of length 2 (quick, 3 start datasets) / "
-    "3 (thorough, 5 start datasets) over a fixed alphabet of 25 concrete operations applied to the most recent dataset.  After EVERY step "
+    "3 (thorough, 5 start datasets) over a fixed alphabet of 25 concrete operations (+ 17 'apply the copying operation but stay on the source' variants) applied to the current dataset; the quick tier adds the depth-3 family (copy-and-stay, in-place, copying).  After EVERY step "
     "EVERY dataset created so far in the history is compared with its reference model.  A history is NON-TRIVIAL when it contains >= 2 "
     "data-changing operations of different kinds (pad / crop / bin / resample) or an index using a step, Ellipsis or list; distinct = "
     "SHA-1 of the canonical JSON of the step list.",
